@@ -1,10 +1,56 @@
-"""Vertex-id tables of the projections (K-VID): the inverse-pair idiom `A[x] = y; B[y] = x`."""
+"""Vertex-id tables and graph-building calls of the projections (K-VID).
+
+Roles are discovered from the code, not from names: the graph is the object of kind OBJ[Graph] that is returned first,
+the id->object table the dict returned second, its inverse the local dict whose definitions mirror it.  Definitions are
+read from subscript stores (`A[k] = v`) and from dict comprehensions (`A = {k: v for ... in it}`), graph calls from
+direct method calls and from repo helpers that are handed the graph (`_add_link(g, u, v)`)."""
 from __future__ import annotations
 
 import ast
-from typing import Dict, List, Tuple
+import copy
+from typing import Dict, List, Optional, Tuple
 
+from ..kinds import Atom, Dct, Lst, Obj, Seq, St, Tup, Union, _Top, elem_of, strip_none
 from ..model import loc, norm, walk_no_nested
+
+
+# ----------------------------------------------------------------------------------------------- table definitions
+class TDef:
+    def __init__(self, name, key, val, scope, node, form):
+        self.name, self.key, self.val, self.scope, self.node, self.form = name, key, val, scope, node, form
+
+
+def _canon_comp(comp: ast.DictComp):
+    """(key text, value text, iter text) with the comprehension's target names replaced by positional tokens"""
+    g = comp.generators[0]
+    names = [x.id for x in ast.walk(g.target) if isinstance(x, ast.Name)]
+    # order of appearance in the source text of the target
+    names = sorted(set(names), key=lambda s: norm(g.target).find(s))
+    ren = {n: f"${i}" for i, n in enumerate(names)}
+
+    class R(ast.NodeTransformer):
+        def visit_Name(self, n):
+            return ast.copy_location(ast.Name(id=ren.get(n.id, n.id), ctx=n.ctx), n)
+
+    k = norm(R().visit(copy.deepcopy(comp.key)))
+    v = norm(R().visit(copy.deepcopy(comp.value)))
+    return k, v, norm(g.iter) + "|" + norm(R().visit(copy.deepcopy(g.target))) + "|" + ",".join(norm(i) for i in g.ifs) + f"|{len(comp.generators)}"
+
+
+def table_defs(v) -> Dict[str, List[TDef]]:
+    """local dict name -> definitions (stores / comprehensions)"""
+    out: Dict[str, List[TDef]] = {}
+    for n in walk_no_nested(v.fi.node):
+        if isinstance(n, ast.Assign) and len(n.targets) == 1:
+            t = n.targets[0]
+            if isinstance(t, ast.Subscript) and isinstance(t.value, ast.Name):
+                out.setdefault(t.value.id, []).append(TDef(t.value.id, norm(t.slice), norm(n.value), ("block", id(v.parent.get(id(n)))), n, "store"))
+            elif isinstance(t, ast.Name) and isinstance(n.value, ast.DictComp):
+                k, val, it = _canon_comp(n.value)
+                out.setdefault(t.id, []).append(TDef(t.id, k, val, ("comp", it), n, "comp"))
+            elif isinstance(t, ast.Name) and isinstance(n.value, (ast.Call,)) and norm(n.value.func) == "dict" and n.value.args:
+                out.setdefault(t.id, []).append(TDef(t.id, None, None, ("other", norm(n.value)), n, "other"))
+    return out
 
 
 def dict_stores(v):
@@ -16,14 +62,178 @@ def dict_stores(v):
     return out
 
 
-def check_inverse_tables(res, v, a: str, b: str, rule="K-VID"):
-    """Every store A[k] = val has a sibling store B[val] = k in the same block (and vice versa)."""
-    st = dict_stores(v)
+def _is_raw(k) -> Optional[bool]:
+    """True: a node label / hyperedge (raw object); False: an id (string / number); None: unknown"""
+    k = strip_none(k)
+    if isinstance(k, _Top):
+        return None
+    if isinstance(k, Union):
+        rs = {_is_raw(m) for m in k.members}
+        if rs == {True}:
+            return True
+        if rs == {False}:
+            return False
+        return None
+    if isinstance(k, Atom):
+        if k.name == "NODE":
+            return True
+        if k.name in ("STR", "NUM", "IDX", "EID", "SIZE", "ORDER"):
+            return False
+        return None
+    if isinstance(k, (Seq, Tup)):
+        e = elem_of(k)
+        r = _is_raw(e)
+        return True if r else None
+    from ..kinds import Const
+
+    if isinstance(k, Const):
+        return False if isinstance(k.value, (int, str)) and not isinstance(k.value, bool) else None
+    return None
+
+
+def discover_tables(v):
+    """(graph name, id->object table name, inverse table name) - each None when not discovered"""
+    g = id2obj = inv = None
+    for r in walk_no_nested(v.fi.node):
+        if isinstance(r, ast.Return) and isinstance(r.value, ast.Tuple) and len(r.value.elts) == 2 and all(isinstance(e, ast.Name) for e in r.value.elts):
+            g, id2obj = r.value.elts[0].id, r.value.elts[1].id
+    defs = table_defs(v)
+    if id2obj is not None:
+        mine = defs.get(id2obj, [])
+        best = None
+        for name, ds in defs.items():
+            if name == id2obj:
+                continue
+            score = sum(1 for d in ds for m in mine if d.form == m.form and d.scope == m.scope and d.key == m.val and d.val == m.key)
+            if score and (best is None or score > best[0]):
+                best = (score, name)
+        if best:
+            inv = best[1]
+    return g, id2obj, inv
+
+
+def graph_subscript_tables(v, gcalls) -> List[str]:
+    """names of local dicts whose entries are used as graph vertices"""
+    out = []
+    for gc in gcalls:
+        for a in gc.vargs:
+            e = v.inline(a)
+            if isinstance(e, ast.Subscript) and isinstance(e.value, ast.Name) and e.value.id not in out:
+                out.append(e.value.id)
+    return out
+
+
+def check_inverse_tables(res, v, a: Optional[str], b: Optional[str], rule="K-VID"):
+    """Every definition A[k] = val has a sibling B[val] = k in the same block / over the same iteration (and vice versa)."""
     f = v.fi.short
-    sa, sb = st.get(a, []), st.get(b, [])
-    res.check(bool(sa) and bool(sb), rule, f, f"{a} / {b}", "tables", f"the id tables {a} / {b} are not both filled", loc(v.fi, v.fi.node))
+    defs = table_defs(v)
+    if a is None or b is None:
+        res.unknown(rule, f, "id tables", "tables", "the pair of id tables (id -> object, object -> id) was not discovered", loc(v.fi, v.fi.node))
+        return
+    sa, sb = defs.get(a, []), defs.get(b, [])
+    if not sa or not sb:
+        res.unknown(rule, f, f"{a} / {b}", "tables", f"definitions of {a} / {b} not recognised", loc(v.fi, v.fi.node))
+        return
+    res.ok(rule, f, f"{a} / {b}", "tables", loc(v.fi, v.fi.node))
+    forms = {d.form for d in sa + sb}
+    if "other" in forms or len(forms) > 1:
+        res.unknown(rule, f, f"{a} / {b}", "inverse", "the two tables are built in different ways; their correspondence is not decided", loc(v.fi, v.fi.node))
+        return
     for (x, other, xn, on) in ((sa, sb, a, b), (sb, sa, b, a)):
-        for asg, k, val in x:
-            blk = v.parent.get(id(asg))
-            sib = [o for o in other if v.parent.get(id(o[0])) is blk and norm(o[1]) == norm(val) and norm(o[2]) == norm(k)]
-            res.check(bool(sib), rule, f, norm(asg), f"{xn}<->{on}", f"`{norm(asg)}` has no inverse entry `{on}[{norm(val)}] = {norm(k)}` next to it: the id tables are not inverse of each other", loc(v.fi, asg))
+        for d in x:
+            sib = [o for o in other if o.scope == d.scope and o.key == d.val and o.val == d.key]
+            res.check(bool(sib), rule, f, norm(d.node)[:160], f"{xn}<->{on}", f"`{norm(d.node)[:120]}` has no inverse entry `{on}[{d.val}] = {d.key}` next to it: the id tables are not inverse of each other", loc(v.fi, d.node))
+
+
+# ----------------------------------------------------------------------------------------------- graph calls
+class GCall:
+    """A networkx call that creates vertices / links: `node` is the call in the analysed function (direct, or the call
+    of a helper that is handed the graph), `vargs` the vertex arguments in terms of the analysed function."""
+
+    def __init__(self, node, meth, vargs, weight, via=None):
+        self.node, self.meth, self.vargs, self.weight, self.via = node, meth, vargs, weight, via
+
+
+def _is_graph(k) -> bool:
+    k = strip_none(k)
+    return isinstance(k, Obj) and k.cls in ("Graph", "DiGraph", "MultiGraph", "MultiDiGraph")
+
+
+NVERT = {"add_edge": 2, "add_node": 1, "add_nodes_from": 1, "add_edges_from": 1, "add_weighted_edges_from": 1}
+
+
+def graph_calls(ctx, v, depth: int = 0) -> List[GCall]:
+    out: List[GCall] = []
+    for n in walk_no_nested(v.fi.node):
+        if not isinstance(n, ast.Call):
+            continue
+        if isinstance(n.func, ast.Attribute) and n.func.attr in NVERT and _is_graph(v.kind(n.func.value)):
+            w = next((kw.value for kw in n.keywords if kw.arg == "weight"), None)
+            out.append(GCall(n, n.func.attr, list(n.args[: NVERT[n.func.attr]]), w))
+            continue
+        if depth >= 2:
+            continue
+        gpos = [i for i, a in enumerate(n.args) if _is_graph(v.kind(a))]
+        if not gpos:
+            continue
+        for callee in ctx.callees(v.fi, n):
+            cv = ctx.view(callee)
+            pnames = [p.arg for p in callee.params]
+            if callee.cls is not None and not callee.is_static and isinstance(n.func, ast.Attribute):
+                pnames = pnames[1:]
+            actual = {}
+            for i, a in enumerate(n.args):
+                if i < len(pnames):
+                    actual[pnames[i]] = a
+            for kw in n.keywords:
+                if kw.arg:
+                    actual[kw.arg] = kw.value
+            for gc in graph_calls(ctx, cv, depth + 1):
+                mapped = []
+                for a in gc.vargs:
+                    mapped.append(actual.get(a.id) if isinstance(a, ast.Name) and a.id in actual else None)
+                if any(m is None for m in mapped):
+                    out.append(GCall(n, gc.meth, [], None, via=callee.short))
+                    continue
+                w = gc.weight
+                if isinstance(w, ast.Name) and w.id in actual:
+                    w = actual[w.id]
+                elif isinstance(w, ast.Name):
+                    w = None
+                out.append(GCall(n, gc.meth, mapped, w, via=callee.short))
+    # the same helper call may reach several graph calls of the helper (weighted / unweighted variant): keep one per method
+    seen, uniq = set(), []
+    for gc in out:
+        k = (id(gc.node), gc.meth, tuple(norm(a) for a in gc.vargs))
+        if k not in seen:
+            seen.add(k)
+            uniq.append(gc)
+    return uniq
+
+
+def check_vertices_are_ids(res, v, gcalls: List[GCall], inv: Optional[str], rule="K-VID", what="a graph vertex / edge is created from a raw object instead of its id in the id table (the id table would not map it back)"):
+    """Vertex arguments of add_node / add_edge are ids: a lookup in the object->id table, a label that was stored in
+    it, or at least a value of an id kind; a node label / hyperedge is reported."""
+    f = v.fi.short
+    defs = table_defs(v)
+    stored_labels = {d.val for d in defs.get(inv, [])} if inv else set()
+    for gc in gcalls:
+        if gc.meth not in ("add_node", "add_edge"):
+            continue
+        if not gc.vargs:
+            res.unknown(rule, f, norm(gc.node), "from-id-table", f"vertex arguments not visible (created inside {gc.via})", loc(v.fi, gc.node))
+            continue
+        for a in gc.vargs:
+            e = v.inline(a)
+            raw = _is_raw(v.kind(a))
+            if isinstance(e, ast.Subscript) and isinstance(e.value, ast.Name) and inv is not None and e.value.id == inv:
+                st = "ok"
+            elif norm(a) in stored_labels or norm(e) in stored_labels:
+                st = "ok"
+            elif raw is True:
+                st = "violation"
+            elif raw is False:
+                st = "ok"
+            else:
+                st = "unknown"
+            res.add(rule, f, norm(gc.node), f"from-id-table:{norm(a)}", st, what if st == "violation" else ("vertex argument not recognised as an id" if st == "unknown" else ""), loc(v.fi, gc.node))
